@@ -346,4 +346,99 @@ Example C05_ex_source_end_to_end :
   end = ORet [GoAstProofs7c.g_spk (ed_pub ToyCrypto.toy_crypto (repeat x07 64)); VBytes [x68; x65; x6c; x6c; x6f]; VNil].
 Proof. vm_compute. reflexivity. Qed.
 
+(* =========================================== PART C05: props/C05.v ======================================= *)
+From SP Require GoAstEntry GoAstProofs5a GoAstProofs5c GoAstProofs6a GoAstProofs6b GoEndToEndEnc GoEndToEndSign GoAstProofs8a.
+(* ---- source ties: NewSignStream, signToStream, Sign (/repo/sign.go), lemmas of proofs/GoAstProofs8a.v ----
+   NewSignStream = sas_new of GoAstProofs6a.v (the translated newSignAttachedStream: compose_newSignAttachedStream).
+   signToStream for an ARBITRARY streamer: its body is NOT EXPRESSIBLE beyond the control flow (it returns &buf, a stale
+   copy in the evaluator; head of GoAstProofs8a.v).  Sign for every meaning of signToStream, and with the specification
+   session sign_att_spec (constructor; Write; Close over the in-memory writer), which returns the model's sign_attached. *)
+Section C05_source_entry.
+Import GoAstEntry GoAstProofs8a.
+Local Open Scope string_scope.
+
+Theorem C05_source_go_NewSignStream :
+  forall (c : crypto) (enc_step : gval -> bytes -> gval * A.gerr) (r : rng) (v : version) 
+    (w : gval) (signer : option bytes),
+  fst (run_func2 (ext_NSS c enc_step r) f_saltpack_NewSignStream [g_version v; w; A.g_signer signer]) =
+  A.sas_new c enc_step v w signer r.
+Proof. exact go_NewSignStream. Qed.
+
+Theorem C05_source_go_signToStream_glue :
+  forall (NEW : list gval -> option (gval * GoAstProofs5a.gerr * gval))
+    (WR : gval -> gval -> option (gval * GoAstProofs5a.gerr * gval))
+    (CL : gval -> option (GoAstProofs5a.gerr * gval)) (BY : gval -> option gval) (V P S0 F : gval),
+  fst (run_func2 (ext_glue NEW WR CL BY "streamer" 1) f_saltpack_signToStream [V; P; S0; F]) =
+  glue_outcome NEW WR CL [V; VNil; S0] P (fun b : gval => ORet [b; VNil]).
+Proof. exact go_signToStream_glue. Qed.
+
+Theorem C05_source_go_Sign :
+  forall (STS : list gval -> option (gval * GoAstProofs5a.gerr)) (BY : gval -> option gval) (V P S : gval),
+  fst (run_func2 (ext_sign STS BY) f_saltpack_Sign [V; P; S]) = sign_wrap STS BY [V; P; S; fn_NewSignStream].
+Proof. exact go_Sign. Qed.
+
+Theorem C05_source_go_Sign_spec :
+  forall (c : crypto) (r : rng) (v : version) (p : bytes) (signer : option bytes),
+  fst
+    (run_func2 (ext_sign (STS_spec c r) (fun b : gval => Some b)) f_saltpack_Sign
+       [g_version v; VBytes p; A.g_signer signer]) = sign_att_spec c r v p signer.
+Proof. exact go_Sign_spec. Qed.
+
+Theorem C05_source_sign_att_spec_model :
+  forall (c : crypto) (r : rng) (v : version) (sk p : bytes) (r' : rng) (outb : bytes),
+  sign_attached c v sk p r = Ok (outb, r') ->
+  (length (cw_session v sig_block_size [] [p]) < 297)%nat ->
+  N.of_nat (length (cw_session v sig_block_size [] [p])) + 2 < A.two64 ->
+  sign_att_spec c r v p (Some sk) = ORet [VBytes outb; VNil].
+Proof. exact sign_att_spec_model. Qed.
+
+Theorem C05_source_sign_spec_model_err :
+  forall (c : crypto) (r : rng) (v : version) (p sk : bytes),
+  (known_version v = false ->
+   sign_att_spec c r v p (Some sk) = ORet [VNil; VErr "ErrBadVersion" [g_version v]] /\
+   sign_det_spec c r v p (Some sk) = ORet [VNil; VErr "ErrBadVersion" [g_version v]] /\
+   sign_attached c v sk p r = Err ErrBadVersion /\ sign_detached c v sk p r = Err ErrBadVersion) /\
+  (known_version v = true ->
+   read_full 16 r = None ->
+   sign_att_spec c r v p (Some sk) = ORet [VNil; VErr "ErrRand" []] /\
+   sign_det_spec c r v p (Some sk) = ORet [VNil; VErr "ErrRand" []] /\
+   sign_attached c v sk p r = Err ErrRand /\ sign_detached c v sk p r = Err ErrRand).
+Proof. exact sign_spec_model_err. Qed.
+
+Theorem C05_source_compose_newSignAttachedStream :
+  forall (c : crypto) (enc_step : gval -> bytes -> gval * A.gerr) (r : rng) (v : version) 
+    (w : gval) (signer : option bytes),
+  fst (run_func2 (A.ext_new c enc_step r) f_saltpack_newSignAttachedStream [g_version v; w; A.g_signer signer]) =
+  match ext_NSS c enc_step r "newSignAttachedStream" [g_version v; w; A.g_signer signer] with
+  | Some rs => ORet rs
+  | None => OStuck "call"
+  end.
+Proof. exact compose_newSignAttachedStream. Qed.
+
+Theorem C05_source_go_sign_session_from_NewSignStream :
+  forall (c : crypto) (F : nat) (v : version) (sk : bytes) (pieces : list bytes) (r : rng),
+  S.go_sign_session c F v sk pieces r =
+  match
+    fst
+      (run_func2 (ext_NSS c A.mem_enc r) f_saltpack_NewSignStream [g_version v; VBytes []; A.g_signer (Some sk)])
+  with
+  | ORet [obj; VNil] => S.go_sas_finish c F (A.sas_complete obj) pieces
+  | ORet [obj] | ORet (obj :: VInt _ :: _) | ORet (obj :: VBool _ :: _) | ORet (obj :: VBytes _ :: _) |
+    ORet (obj :: VStruct _ :: _) | ORet (obj :: VList _ :: _) | ORet (obj :: VNil :: _ :: _) |
+    ORet (obj :: VErr _ _ :: _) => None
+  | _ => None
+  end.
+Proof. exact go_sign_session_from_NewSignStream. Qed.
+
+End C05_source_entry.
+
+Print Assumptions C05_source_go_NewSignStream.
+Print Assumptions C05_source_go_signToStream_glue.
+Print Assumptions C05_source_go_Sign.
+Print Assumptions C05_source_go_Sign_spec.
+Print Assumptions C05_source_sign_att_spec_model.
+Print Assumptions C05_source_sign_spec_model_err.
+Print Assumptions C05_source_compose_newSignAttachedStream.
+Print Assumptions C05_source_go_sign_session_from_NewSignStream.
+
 
